@@ -1,8 +1,9 @@
 (* C03 — Inbound frame streams decode exactly; violations are rejected; never a panic.
-   Statements only; proofs in Proofs/ReaderP.v, Proofs/FrameP.v (and Proofs/ReaderRefP.v for whole streams). *)
+   Statements only; proofs in Proofs/ReaderP.v, Proofs/FrameP.v, and for whole streams Proofs/ReaderRefP.v (valid), Proofs/ReaderZP.v
+   (valid, with compressed messages, every inflater), Proofs/ReaderViolP.v (first violation). *)
 From Coq Require Import List NArith ZArith Bool.
 From WS Require Import Base.Words Gen.Consts Model.Mask Model.Frame Model.Proto Model.CloseCodec Model.RefDecoder Model.Reader
-  Model.Script Proofs.FrameP Proofs.ReaderP Proofs.ReaderRefP.
+  Model.Script Model.ScriptZ Proofs.FrameP Proofs.ReaderP Proofs.ReaderRefP Proofs.ReaderZP Proofs.ReaderCutP Proofs.ReaderViolP.
 Import ListNotations.
 Open Scope N_scope.
 
@@ -59,3 +60,61 @@ Example C03_nonvacuous :
   exists h rest, dec_hdr (r_inq s) = DecOk h rest /\ hdr_violation cfg h = true /\
     match read_loop cfg 5 s with Err REOther _ => True | _ => False end.
 Proof. eexists. eexists. vm_compute. repeat split. Qed.
+
+
+(* ---- whole streams with COMPRESSED messages, for EVERY inflater (the inflater is a parameter of the model) ----
+   For every valid stream on a connection that negotiated permessage-deflate — compressed and uncompressed messages mixed, any
+   fragmentation, Ping / Pong frames anywhere incl. inside compressed messages, any read-buffer sizes, both roles, with and
+   without context takeover — the reader hands the inflater exactly the concatenated payload of the message plus 00 00 ff ff
+   with exactly the dictionary RFC 7692 prescribes (the last window of what compressed messages delivered, or nothing), and
+   delivers exactly what the inflater returns. *)
+Theorem C03_valid_compressed : forall cfg inflate co ms sizes e,
+  rc_co cfg = Some co ->
+  Forall (fun zm => wf_smsg (zm_m zm)) ms ->
+  all_inflate_ok inflate (reader_takeover (rc_role cfg) co) [] ms = true ->
+  length sizes = length ms -> Forall (fun n => 0 < n)%nat sizes ->
+  let masked := role_eqb (rc_role cfg) Server in
+  let r := run cfg inflate (-1)%Z (enc_zscript masked ms) e (read_ops sizes) in
+  fst r = expected_zobs inflate (reader_takeover (rc_role cfg) co) [] ms /\
+  r_replies (snd r) = expected_pongs_written (map zm_m ms) /\
+  r_pongs (snd r) = expected_pong_notes (map zm_m ms) /\
+  r_inq (snd r) = [] /\ r_closed (snd r) = false.
+Proof. exact reader_valid_zstream. Qed.
+Print Assumptions C03_valid_compressed.
+
+(* ---- the FIRST VIOLATION in a stream ----
+   Valid messages, then a frame whose header breaks the protocol (a reserved bit, a reserved opcode, masking wrong for the role,
+   a control frame longer than 125 bytes or fragmented), then ANYTHING: the application gets exactly the valid messages, the next
+   Reader call fails, nothing behind the violating header is read, and a Close frame with status 1002 is written after the Pongs
+   (unless the only fault is the masking: then the read fails without a Close frame), whatever the application does next. *)
+Theorem C03_first_violation : forall cfg inflate ms sizes h tail e more,
+  rc_co cfg = None ->
+  Forall wf_smsg ms -> length sizes = length ms -> Forall (fun n => 0 < n)%nat sizes ->
+  wf_hdr h -> hdr_violation cfg h = true ->
+  let masked := role_eqb (rc_role cfg) Server in
+  let stream := enc_script masked ms ++ enc_hdr h ++ tail in
+  let r := run cfg inflate (-1)%Z stream e (read_ops sizes ++ OReader :: more) in
+  fst r = expected_obs ms ++ [ObReader (inr REOther)] /\
+  r_replies (snd r) = expected_pongs_written ms ++
+     (if h_rsv1 h || h_rsv2 h || h_rsv3 h || Bool.eqb (h_masked h) masked then [RpClose c_StatusProtocolError None] else []) /\
+  r_pongs (snd r) = expected_pong_notes ms /\
+  r_inq (snd r) = tail /\
+  r_closed (snd r) = false.
+Proof. exact reader_first_violation. Qed.
+Print Assumptions C03_first_violation.
+
+(* the same with the violating header INSIDE an unfinished fragmented message (after any valid control frames): the fragments
+   received so far are handed out and the read of the message fails *)
+Theorem C03_first_violation_mid : forall cfg inflate ms sizes t f0 fs n cs h tail e more,
+  Forall wf_smsg ms -> length sizes = length ms -> Forall (fun n => 0 < n)%nat sizes ->
+  (t = 1 \/ t = 2) -> wf_frag f0 -> Forall wf_frag fs -> (0 < n)%nat ->
+  Forall wf_ctl cs -> wf_hdr h -> hdr_violation cfg h = true ->
+  let masked := role_eqb (rc_role cfg) Server in
+  let stream := enc_script masked ms ++ enc_open_msg masked t f0 fs ++ concat (map (enc_ctl masked) cs) ++ enc_hdr h ++ tail in
+  let r := run cfg inflate (-1)%Z stream e (read_ops sizes ++ OReader :: OReadAllN n :: more) in
+  fst r = expected_obs ms ++ [ObReader (inl t); ObMsg (bodies (f0 :: fs)) (Some REOther)] /\
+  r_replies (snd r) = expected_pongs_written ms ++ pw (ctls (f0 :: fs)) ++ pw cs ++ viol_replies cfg h /\
+  r_pongs (snd r) = expected_pong_notes ms ++ pn (ctls (f0 :: fs)) ++ pn cs /\
+  r_inq (snd r) = tail /\ r_closed (snd r) = false /\ r_close_sent (snd r) = closes_1002 cfg h.
+Proof. exact reader_first_violation_mid. Qed.
+Print Assumptions C03_first_violation_mid.
